@@ -106,6 +106,20 @@ Theorem C01_engine_output_tokens_all :
 Proof. exact engine_output_tokens_all. Qed.
 Print Assumptions C01_engine_output_tokens_all.
 
+(** (3c) Composition with (2): what the model of the engine emits - for any
+    evaluable well-formed value, strings included, at every width, ribbon,
+    indent, max_seq_len >= 1 - glues to the tokens of an expression that
+    evaluates (PyEval.eval) to the value, cut to max_seq_len. *)
+Theorem C01_engine_output_evaluates :
+  forall (printable sp wd lb : N -> bool) (fuel ff : nat) (env : str -> option target),
+    env n_float = None -> env n_frozenset = None -> env n_set = None ->
+    forall (v : pyval) (indent width rw : Z) (n : Z) (sort : bool) (out : list sdoc),
+    (1 <= n)%Z -> wf_val v -> evaluable env v ->
+    sdocs_model printable sp wd lb fuel ff v indent width rw None n sort = Some out ->
+    exists e, Glue printable (rtoks (strip out) NNormal) (etoks e) /\ eval env e = Some (norm n sort v).
+Proof. exact engine_output_evaluates. Qed.
+Print Assumptions C01_engine_output_evaluates.
+
 (** Non-vacuity: a bytes value split over two lines inside a list at width 12
     (no line shorter than the 10-column floor) - the raw tokens are the
     bracket, two  b'..'  pieces, the bracket. *)
